@@ -14,6 +14,7 @@ mod evidence;
 mod campaign;
 mod c03;
 mod c07;
+mod build_checks;
 
 use rayon::prelude::*;
 
@@ -57,6 +58,10 @@ fn check(id: &str, tier: &str, seed: u64) -> i32 {
         "C15" => "C15",
         "C03" => "C03",
         "C07" => "C07",
+        "C09" => "C09",
+        "C13" => "C13",
+        "C19" => "C19",
+        "C20" => "C20",
         _ => {
             eprintln!("unknown property {}", id);
             return 2;
@@ -83,6 +88,10 @@ fn check(id: &str, tier: &str, seed: u64) -> i32 {
     let r = match prop {
         "C03" => c03::run_c03(tier, seed),
         "C07" => c07::run_c07(tier, seed),
+        "C09" => build_checks::run_c09(tier, seed),
+        "C13" => build_checks::run_c13(tier, seed),
+        "C19" => build_checks::run_c19(tier, seed),
+        "C20" => build_checks::run_c20(tier, seed),
         _ => campaign::run_sem_campaign(prop, tier, seed),
     };
     if violations + r.violations > 0 {
@@ -101,6 +110,10 @@ fn replay_file(path: &std::path::Path) -> Result<Option<String>, String> {
         Some("sem") => {
             let rep: campaign::SemReplay = serde_json::from_value(v).map_err(|e| e.to_string())?;
             campaign::replay_sem(&rep)
+        }
+        Some("c09") | Some("c13") | Some("c19") | Some("c20") => {
+            let rep: build_checks::ProgReplay = serde_json::from_value(v).map_err(|e| e.to_string())?;
+            build_checks::replay_prog(&rep)
         }
         Some("c07") => {
             let rep: c07::C07Replay = serde_json::from_value(v).map_err(|e| e.to_string())?;
@@ -149,8 +162,10 @@ fn probe(args: &[String]) {
             let p = gen::gen_program(tape, &prof);
             let text = print::print(&p).text;
             if build {
+                let t0 = std::time::Instant::now();
                 match pipeline::build_driver(&p, &text, pipeline::Mode::Module) {
                     Ok(b) => {
+                        eprintln!("build {:.1}s module {} lines, source {} lines", t0.elapsed().as_secs_f64(), b.module_text.lines().count(), text.lines().count());
                         let o = pipeline::run_driver(&b.exe, "reset\nclose\ndumpx\n", std::time::Duration::from_secs(20), &[]).unwrap();
                         (i, text, format!("OK driver exit={:?} out={}B", o.code, o.stdout.len()))
                     }
